@@ -51,6 +51,41 @@ def showE (r : Except PyErr String) : String :=
   | .ok s => "ok " ++ s
   | .error e => "err " ++ toString e
 
+/-- a history for the heap model, flattened to numbers: `0 kind vals` newArr (kind 0 = 3x3, 1 = 3-vector), `1 addr kind vals`
+callerWrite, `2 r t` construct, `3 p` copyObj, `4 p k` scale, `5 p q` compose, `6 p q` invCompose, `7 p a` transform,
+`8 p a` invTransform -/
+partial def parseHist (l : List Float) (acc : List (HOp Float)) : Option (List (HOp Float)) :=
+  let nat (x : Float) : Nat := x.toUInt64.toNat
+  let arr (kind : Float) (r : List Float) : Option (Arr Float × List Float) :=
+    if kind == 0 then (mkM r).map fun (m, r) => (Arr.mat m, r) else (mkV r).map fun (v, r) => (Arr.vec v, r)
+  match l with
+  | [] => some acc.reverse
+  | c :: rest =>
+    match nat c, rest with
+    | 0, kind :: r => (arr kind r).bind fun (a, r) => parseHist r (.newArr a :: acc)
+    | 1, addr :: kind :: r => (arr kind r).bind fun (a, r) => parseHist r (.callerWrite (nat addr) a :: acc)
+    | 2, a :: b :: r => parseHist r (.construct (nat a) (nat b) :: acc)
+    | 3, a :: r => parseHist r (.copyObj (nat a) :: acc)
+    | 4, a :: k :: r => parseHist r (.scale (nat a) k :: acc)
+    | 5, a :: b :: r => parseHist r (.compose (nat a) (nat b) :: acc)
+    | 6, a :: b :: r => parseHist r (.invCompose (nat a) (nat b) :: acc)
+    | 7, a :: b :: r => parseHist r (.transform (nat a) (nat b) :: acc)
+    | 8, a :: b :: r => parseHist r (.invTransform (nat a) (nat b) :: acc)
+    | _, _ => none
+
+/-- observable state: the value of every Pose object, then every caller-owned array, in address order -/
+def showHeap (h : Heap Float) : String :=
+  let objs := (List.range h.objs.length).map fun p =>
+    match h.deref p with
+    | some P => showP P
+    | none => "dangling"
+  let cells := h.cells.filterMap fun c =>
+    match c with
+    | (.caller, .mat m) => some (showM m)
+    | (.caller, .vec v) => some (showV v)
+    | (.pose, _) => none
+  " ".intercalate ([showF (Float.ofNat h.objs.length), showF (Float.ofNat cells.length)] ++ objs ++ cells)
+
 def run (op : String) (a : List Float) : Option String :=
   match op, a with
   | "v2", [h, v] => some <| showE do
@@ -89,6 +124,11 @@ def run (op : String) (a : List Float) : Option String :=
         let r := ps.invRotateTranslatePose q
         some s!"ok {showV (ps.rotateTranslate ⟨x, y, z⟩)} {showV (ps.invRotateTranslate ⟨x, y, z⟩)} {showV (ps.invRotateTranslate ⟨x, y, z⟩)} {showP r} {showV ps.t}"
       | _ => none
+  | "heap", l => do
+      let ops ← parseHist l []
+      match (Heap.empty : Heap Float).run ops with
+      | .ok h => some s!"ok {showHeap h}"
+      | .error e => some s!"err {e}"
   | "rod", l => do
       let (p, l) ← mkV l
       let (r, l) ← mkV l
